@@ -80,8 +80,17 @@ Lemma attrs_at_nomissing ps i : NoDup (akeys ps) ->
 Proof. intros Hnd H. rewrite attrs_at_foldM. rewrite (attrs_nomissing_fold i ps [] Hnd H). reflexivity. Qed.
 
 (* ---------- the domain of the backend ---------- *)
+(* int8[k] / uint8[k]: spatial_graph (0.1.1) hands such an attribute of ONE node / edge (graph.node_attrs[node].name, which is what the
+   SgGraphAdapter reads) back as a 0-d bytes array -- Cython turns the char[k] member into a C string: array(b'\x01\x02...', dtype='|S6')
+   with an uninitialised tail for nodes -- although the array view graph.node_attrs[nodes].name holds the right int8 rows.  The model
+   (canon_sg) reads every vector as a list of k numbers, so 8-bit VECTOR attributes -- and an 8-bit position -- are outside the domain
+   of the spatial-graph theorems (open finding sg-8bit-vector-read-as-bytes; third-party). *)
+Definition is_8bit (d : dtype) : bool := match d with DI8 | DU8 => true | _ => false end.
+
 Definition sg_arr_ok (n : nat) (a : arr) : Prop :=
-  sg_dtype_ok (a_dt a) = true /\ ((a_shape a = [n] /\ length (a_flat a) = n) \/ (exists k, a_shape a = [n; k] /\ length (a_flat a) = n * k)).
+  sg_dtype_ok (a_dt a) = true /\
+  ((a_shape a = [n] /\ length (a_flat a) = n) \/
+   (exists k, a_shape a = [n; k] /\ length (a_flat a) = n * k /\ is_8bit (a_dt a) = false)).
 
 Definition sg_prop_ok (n : nat) (p : prop) : Prop :=
   p_missing p = None /\ exists a, p_vals p = PFixed a /\ sg_arr_ok n a.
@@ -99,7 +108,8 @@ Record sg_dom (g : mgraph) (pos : string) (ids : list Z) (es : list (Z * Z)) (na
   sd_eprops : Forall (fun kv => sg_prop_ok (length es) (snd kv)) (g_eprops g);
   sd_pos_fresh : ~ In pos (akeys (g_nprops g));
   sd_axis_props : forall nm, In nm names -> exists a, alookup nm (g_nprops g) = Some (mkprop (PFixed a) None) /\
-                                                    a_shape a = [length ids] /\ a_dt a = dt
+                                                    a_shape a = [length ids] /\ a_dt a = dt;
+  sd_dt8 : is_8bit dt = false
 }.
 
 Lemma sg_arr_row n a i : sg_arr_ok n a -> i < n -> exists v, row_cval a i = Ok v.
